@@ -12,13 +12,13 @@ import (
 // ok=false if no collision exists.
 func Pick() (a, b, c *TypeOps, ok bool) {
 	bus := eventbus.New()
-	byShard := map[int][]*TypeOps{}
+	byShard := map[string][]*TypeOps{}
 	for _, t := range Pool {
-		s := eventbus.VerifShardIndex(bus, t.RT)
+		s := eventbus.VerifShardKey(bus, t.RT)
 		byShard[s] = append(byShard[s], t)
 	}
 	for i := 0; i < len(Pool); i++ {
-		s := eventbus.VerifShardIndex(bus, Pool[i].RT)
+		s := eventbus.VerifShardKey(bus, Pool[i].RT)
 		if l := byShard[s]; len(l) >= 2 && l[0] == Pool[i] {
 			a, b = l[0], l[1]
 			break
@@ -27,9 +27,9 @@ func Pick() (a, b, c *TypeOps, ok bool) {
 	if a == nil {
 		return Pool[0], Pool[1], Pool[2], false
 	}
-	sa := eventbus.VerifShardIndex(bus, a.RT)
+	sa := eventbus.VerifShardKey(bus, a.RT)
 	for _, t := range Pool {
-		if eventbus.VerifShardIndex(bus, t.RT) != sa {
+		if eventbus.VerifShardKey(bus, t.RT) != sa {
 			c = t
 			break
 		}
@@ -42,3 +42,6 @@ func Pick() (a, b, c *TypeOps, ok bool) {
 	}
 	return a, b, c, true
 }
+
+// HookMode reports which variant of the eventbus hook is compiled in.
+func HookMode() string { return eventbus.VerifHookMode }
